@@ -21,8 +21,31 @@ package dhcpv6
 //@   inv avdist: forall i int, j int :: 0 <= i && i < j && j < len(self.available) ==> ipkey(self.available[i]) != ipkey(self.available[j])
 //@   inv avfree: forall i int, d string :: 0 <= i && i < len(self.available) && d in self.allocated ==> ipkey(self.available[i]) != ipkey(self.allocated[d])
 //@   inv inj: forall d string, e string :: d in self.allocated && e in self.allocated && d != e ==> ipkey(self.allocated[d]) != ipkey(self.allocated[e])
+// "only hands out values inside the serving pool": every free and every bound address lies in the
+// pool's network (netcontains = what network.Contains answers)
+//@   inv innet: forall i int :: 0 <= i && i < len(self.available) ==> netcontains(self.network, self.available[i])
+//@   inv alnet: forall d string :: d in self.allocated ==> netcontains(self.network, self.allocated[d])
+
+// The constructor establishes the invariants: the free list holds only addresses of the network.
+//@ func NewAddressPool
+//@   ensures err == nil ==> result != nil && fresh(result) && result.nonnil && result.innet && result.alnet
+//@   ensures err == nil ==> len(result.allocated) == 0
+
+//@ loop NewAddressPool#1
+//@   invariant pool != nil && pool.network == ipnet && pool.allocated != nil && len(pool.allocated) == 0
+//@   invariant forall k int :: 0 <= k && k < len(pool.available) ==> netcontains(ipnet, pool.available[k])
+
+//@ func nextIPv6
+//@   modifies nothing
+//@   ensures len(result) == 16 && fresh(result)
+
+//@ func copyIPv6
+//@   modifies nothing
+//@   ensures len(result) == 16 && fresh(result)
+//@   ensures len(ip) == 16 ==> ipkey(result) == ipkey(ip)
 
 //@ func (p *AddressPool) Allocate
+//@   ensures result != nil ==> netcontains(p.network, result)
 //@   modifies p.allocated, p.available
 //@   ensures result != nil ==> duid in p.allocated && p.allocated[duid] == result
 //@   ensures forall d string :: d in p.allocated && d != duid ==> ipkey(p.allocated[d]) != ipkey(result) || result == nil
